@@ -177,6 +177,21 @@ CHECKS = {
         "bounds": {"quick": "token depth 5", "thorough": "token depth 6; plus prebuilt formats"},
         "assumptions": COMMON_ASSUME + ["R-gram follows the flag one-liners in format_flags.rs and the NumberFormatBuilder getter docs; Unspecified cases: lone sign or empty string without required digits, `1.e3` under no_exponent_without_fraction, `0x` without digits, single digit before a base suffix, prefix x leading-zero flags"],
     },
+    "C13": {
+        "bin": "c13",
+        "quick": cfgs(["rdxfmt"]),
+        "thorough": cfgs(["rdxfmt", "fmt", "cmprdxfmt"]),
+        "rule": "formats: each of the 15 valid internal/leading/trailing/consecutive flag combinations on the integer, fraction or exponent component alone "
+                "and on all three (60), plus other separator bytes (',', quote, a letter), hex with binary exponent, hex/decimal with hexadecimal exponent "
+                "digits, separator+prefix+suffix, integer-only separators (8); types f64, f32, i64, u128. (a) every string of <= L tokens over "
+                "{-,1,0,max digit,separator,point,exponent,x} and long numbers (1..40 digits per component, exact halfway strings) with a separator run of "
+                "length 1 and 2 at every position: if accepted, every run must stand in a position enabled by the flags (classification after "
+                "docs/DigitSeparators.md) and deleting the separators must keep the value; (b) every accepted separator-free string with one enabled run "
+                "inserted at every digit boundary of every component that has a digit keeps its value; (c) separator-free strings get identical "
+                "complete and partial results under the format and under its separator-free twin; non-trivial = accepted inputs containing a separator",
+        "bounds": {"quick": "token depth 6", "thorough": "token depth 7; plus prebuilt formats with separators (parts a, b)"},
+        "assumptions": COMMON_ASSUME + ["runs with no digit on either side inside their component, and separators outside the digit components (next to the exponent sign) are not judged"],
+    },
 }
 
 # properties not claimed (reason). Kept current by hand.
